@@ -478,6 +478,11 @@ def check_special(e, block):
        `?=` absent or one of the listed values, `^=` absent or a prefix of the list, `~` unconstrained;
        every column not mentioned must be absent."""
     ws = e.split(" ")
+    if ws[0] == "@head":
+        # the first line of the block; further lines are compared with the model only
+        want = e[len("@head "):]
+        got = block[0] if block else "<nothing>"
+        return None if got == want else "specification expects `%s`, implementation gives `%s`" % (want, got)
     if ws[0] == "@count":
         want = int(ws[1])
         got = len([l for l in block if l.startswith("msg")])
